@@ -395,7 +395,7 @@ def gen_req(rng, tags, addrs, kinds=('read', 'readf', 'write', 'writef', 'get', 
     if kind == 'read':
         return ('read', p, cnt)
     if kind == 'readf':
-        off = rng.choice([0, 0, sz, sz * rng.randint(0, max(cnt, 1)), rng.randint(0, sz * (cnt + 1)), sz * cnt])
+        off = rng.choice([0, 0, sz, sz * rng.randint(0, max(cnt, 1)), rng.randint(0, sz * (cnt + 1)), sz * cnt, rng.choice([2 ** 32 - sz, 2 ** 32 - 2 * sz, 2 ** 31, 2 ** 32 - 1])])
         return ('readf', p, cnt, off)
     if kind in ('write', 'writef'):
         if rng.random() < 0.7:
@@ -415,7 +415,9 @@ def gen_req(rng, tags, addrs, kinds=('read', 'readf', 'write', 'writef', 'get', 
             o = rng.randint(0, max(cnt - 1, 0))
             m = rng.randint(1, max(cnt - o, 1))
             return ('writef', p, code, cnt, o * sz, [rand_val(rng, rty) for _ in range(m)])
-        return ('writef', p, code, cnt, rng.choice([0, sz, rng.randint(0, sz * (cnt + 1))]), data)
+        # offsets at the edges of the 32-bit field: 2^32 - k elements (which a signed reading would turn into "k elements back"), 2^31
+        edge = [2 ** 32 - sz * j for j in range(1, 4)] + [2 ** 31, 2 ** 31 - sz, 2 ** 32 - 1]
+        return ('writef', p, code, cnt, rng.choice([0, sz, rng.randint(0, sz * (cnt + 1)), rng.choice(edge)]), data)
     # attribute services need a numeric path ending in the attribute
     c, i, a = addrs[k]
     x = rng.random()
